@@ -42,15 +42,24 @@ func VH_C12c() {
 	nch := vsym.Choice("nchunks", vsym.Param("maxchunks", 2)+1)
 	var chunks [][]byte
 	var payload []byte
+	// one chunk may be ten bytes long, so that its size is a hex letter, written in either case
+	big := nch == 1 && vsym.Choice("tenbytes", 2) == 1
 	for i := 0; i < nch; i++ {
-		c := vsym.Bytes("cd", 1+vsym.Choice("csz", vsym.Param("maxchunk", 2)))
+		n := 1 + vsym.Choice("csz", vsym.Param("maxchunk", 2))
+		if big {
+			n = 10
+		}
+		c := vsym.Bytes("cd", n)
 		chunks = append(chunks, c)
 		payload = append(payload, c...)
 	}
 	stream := frameChunks(chunks)
+	if big && vsym.Choice("uppercase", 2) == 1 {
+		stream[0] = 'A'
+	}
 	wellFormed := true
 	damage := vsym.Choice("damage", 4)
-	if nch == 0 && damage != 0 {
+	if (nch == 0 || big) && damage != 0 {
 		vsym.Assume(false) // the damage variants below are about a stream that has a data chunk
 	}
 	switch damage {
